@@ -349,6 +349,18 @@ CLAIMS["C29"] = (
     "reloads' is induction over Clone / Clear / add (meta-argument).",
     "DESIGN.md section 4, C29")
 
+CLAIMS["C14"] = (
+    "CalcParams against a spec lexer written from MySQL's lexical rules (state function qs over the statement text: statement text, "
+    "'...' and \"...\" literals with backslash escapes and doubled quotes, `...` identifiers, # comments; np counts the '?' met in "
+    "statement text): by an inductive loop invariant over the byte position (any statement length) the reported count equals np, the k-th "
+    "reported offset is the position of the k-th grammar marker, and an error is reported only for an unterminated literal. The invariant "
+    "is proved for every statement without backslash, backtick and '#' (residual obligations of the recorded finding: for all other "
+    "statements CalcParams is known to diverge from the grammar -- backslash escapes, quoted identifiers, comments).",
+    "The oracle is a hand-written spec lexer (definitional axioms lexStart / lexStep), not the yacc grammar; `--` and /* */ comments are not "
+    "in the spec (two-byte look-ahead); string(byte) is modelled as an injective function with one-byte results for ASCII; the sqlItems "
+    "pieces returned alongside are not specified.",
+    "DESIGN.md section 4, C14")
+
 NA = {
  "C02": "not applicable to contract-based verification here: the oracle is the result of executing SQL on data (what one MySQL holding all shards would return); no contract within reach expresses an SQL execution semantics, and the rewriter is ~3k lines of visitors over TiDB AST types (DESIGN.md section 5)",
  "C06": "not applicable: the property compares a token pre-check with the decision of the yacc-generated parser; the specification is that parser (tables + hand-written lexer), which is outside the verifier's subset (DESIGN.md section 5)",
